@@ -30,7 +30,8 @@ Record scenario : Type := mkScenario {
   s_trust : bool;          (* XMPP_CONN_FLAG_TRUST_TLS *)
   s_cafile : bool;         (* xmpp_conn_set_cafile called *)
   s_capath : bool;         (* xmpp_conn_set_capath called *)
-  s_cb : cbk;              (* xmpp_conn_set_certfail_handler *)
+  s_cb_before : list cbk;  (* earlier xmpp_conn_set_certfail_handler calls on the same connection object, in order *)
+  s_cb : cbk;              (* the last xmpp_conn_set_certfail_handler call (CbNone: NULL, or never called) *)
   s_entry : entry;
   s_mandatory : bool;      (* XMPP_CONN_FLAG_MANDATORY_TLS *)
   s_ssl_ok : bool;         (* tls_new's resources: allocation, SSL_CTX_new, default paths, SSL_new, SSL_set_fd *)
@@ -54,7 +55,8 @@ Record sslcfg : Type := mkCfg {
   v_cb : Z;                (* 0 = no callback, 1 = _tls_verify, 9 = something else *)
   v_hostflags : Z;         (* X509_VERIFY_PARAM host flags *)
   v_host : bool;           (* reference identity pinned to conn->domain, and that is the configured JID's domain *)
-  v_ca : bool              (* SSL_CTX_load_verify_locations was called with the user's CA file / path *)
+  v_ca : bool;             (* SSL_CTX_load_verify_locations was called with the user's CA file / path *)
+  v_clock : bool           (* verification time and flags untouched: validity is checked against the real clock *)
 }.
 
 Inductive out : Type :=
@@ -118,8 +120,15 @@ Definition tls_new (sc : scenario) : option sslcfg :=
   let ca := s_cafile sc || s_capath sc in
   if s_ssl_ok sc && (if ca then s_ca_ok sc else true) then
     Some (mkCfg (fst (verify_setting (s_trust sc))) (snd (verify_setting (s_trust sc)))
-                (hostflags_setting (s_trust sc)) (host_setting (s_trust sc)) ca)
+                (hostflags_setting (s_trust sc)) (host_setting (s_trust sc)) ca (tls_time_overrides =? 0))
   else None.
+
+(* ---------------------------------------------------------------- xmpp_conn_set_certfail_handler *)
+(* stores its argument; were the store guarded by `if (hndl)`, NULL would leave the old handler in place *)
+Definition set_handler (old new : cbk) : cbk :=
+  if tls_set_handler_unconditional then new else match new with CbNone => old | _ => new end.
+(* conn->certfail_handler when the connection is started *)
+Definition effective_cb (sc : scenario) : cbk := fold_left set_handler (s_cb_before sc ++ [s_cb sc]) CbNone.
 
 (* ---------------------------------------------------------------- _tls_verify *)
 Definition shape_ret (g : Z) : option Z :=
@@ -174,7 +183,7 @@ Fixpoint ssl_verify (cfg : sslcfg) (cb : cbk) (stream : list (Z * Z)) (n : nat) 
 
 (* tls_start: 1 iff SSL_connect finally returned > 0 *)
 Definition tls_start (cfg : sslcfg) (sc : scenario) (n : nat) : bool * list out * nat :=
-  match ssl_verify cfg (s_cb sc) (s_stream sc) n with
+  match ssl_verify cfg (effective_cb sc) (s_stream sc) n with
   | (vok, evs, n') => (s_hs_ok sc && (negb (Z.odd (v_mode cfg)) || vok), evs, n')
   end.
 
